@@ -54,6 +54,23 @@ func init() {
 		"strconv.bitSizeError": opaqueErrorPtr,
 		"strconv.ParseFloat":   strconvParseFloat,
 		"strconv.Itoa":         strconvItoa,
+		"internal/stringslite.Clone": func(in *Interp, fn *ssa.Function, args []value) value { return args[0] },
+		"strings.Clone":              func(in *Interp, fn *ssa.Function, args []value) value { return args[0] },
+		"strconv.cloneString":        func(in *Interp, fn *ssa.Function, args []value) value { return args[0] },
+		"strconv.AppendInt":    strconvAppendInt,
+		"strconv.AppendFloat":  strconvAppendFloat,
+		"strconv.FormatInt": func(in *Interp, fn *ssa.Function, args []value) value {
+			return strconvItoa(in, fn, args[:1])
+		},
+		"encoding/json.Marshal": func(in *Interp, fn *ssa.Function, args []value) value {
+			return in.callSSA(in.findFunc(modulePath+"/pkg/lucene/expr", "VerifJSONMarshal"), args, nil)
+		},
+		"encoding/json.Unmarshal": func(in *Interp, fn *ssa.Function, args []value) value {
+			return in.callSSA(in.findFunc(modulePath+"/pkg/lucene/expr", "VerifJSONUnmarshal"), args, nil)
+		},
+		modulePath + "/pkg/lucene/expr.verifNonASCIIKey": func(in *Interp, fn *ssa.Function, args []value) value {
+			panic(cut("json-key-with-non-ascii-bytes"))
+		},
 		"reflect.TypeOf":       func(in *Interp, fn *ssa.Function, args []value) value { return iface{t: fn.Signature.Results().At(0).Type(), v: opaque{"reflect.Type"}} },
 		"unicode.IsLetter":     func(in *Interp, fn *ssa.Function, args []value) value { return in.runePred("isLetter", args[0]) },
 		"unicode.IsDigit":      func(in *Interp, fn *ssa.Function, args []value) value { return in.runePred("isDigit", args[0]) },
@@ -535,6 +552,28 @@ func strconvItoa(in *Interp, fn *ssa.Function, args []value) value {
 		return in.fmtIntTerm(x, true)
 	}
 	panic(engineErr("Itoa of %T", args[0]))
+}
+
+func strconvAppendInt(in *Interp, fn *ssa.Function, args []value) value {
+	if b := in.concInt(args[2], "AppendInt base"); b != 10 {
+		panic(cut("AppendInt base %d", b))
+	}
+	s := strconvItoa(in, fn, args[1:2])
+	dst, _ := args[0].([]value)
+	return append(dst, strBytes(s)...)
+}
+
+func strconvAppendFloat(in *Interp, fn *ssa.Function, args []value) value {
+	f, ok := args[1].(float64)
+	if !ok {
+		panic(cut("AppendFloat of symbolic float"))
+	}
+	fm := byte(in.concInt(args[2], "AppendFloat fmt"))
+	prec := int(in.concInt(args[3], "AppendFloat prec"))
+	bits := int(in.concInt(args[4], "AppendFloat bits"))
+	s := strconv.FormatFloat(f, fm, prec, bits)
+	dst, _ := args[0].([]value)
+	return append(dst, strBytes(s)...)
 }
 
 func (in *Interp) findFunc(pkg, name string) *ssa.Function {
